@@ -655,12 +655,86 @@ inline void allocSweep(Ctx& c, long j)
             }
 }
 
+// deterministic, lean: a crowd of endpoints whose messages lost their tails (first segments only, never completed) is in the
+// decoder's table while a victim endpoint sends complete, in-order messages whose consecutive segments are separated by hundreds
+// to thousands of frames of other endpoints. "The decoder recovers on its own": every victim message must be delivered, intact.
+// (House-keeping that drops reassemblies by age or by table size hits exactly this traffic.)
+inline void crowdCase(Ctx& c, long j)
+{
+    static const size_t crowds[] = {70, 300, 1100, 5000};
+    static const size_t gaps[] = {300, 1100, 1500, 5000};
+    const size_t crowd = crowds[j % 4], gap = gaps[(j / 4) % 4];
+    Rng r = c.fixedRng(j, 15);
+    ASAM::CMP::Decoder dec;
+    c.note("crowd of " + std::to_string(crowd) + " endpoints with unfinished messages; victim messages of 4 segments with " + std::to_string(gap) + " foreign frames between consecutive segments");
+    auto first = [&](uint16_t dev, uint8_t stream, uint16_t seq) {
+        GMsg m;
+        m.ts = seq;
+        m.idWord = dev;
+        m.ptype = 0x41;
+        m.flags = wire::SEG_FIRST;
+        m.payload = r.bytes(12);
+        return buildFrame(1, dev, wire::MT_DATA, stream, seq, {m});
+    };
+    for (size_t i = 0; i < crowd; ++i)
+    {
+        Bytes f = first(static_cast<uint16_t>(0x1000 + i / 200), static_cast<uint8_t>(i % 200), static_cast<uint16_t>(i));
+        if (!dec.decode(f.data(), f.size()).empty())
+            c.violation("C06:delivered-packet-matches-no-sent-message", "a first segment delivered a packet", "crowd history");
+    }
+    GMsg u;
+    u.ts = 3;
+    u.idWord = 4;
+    u.ptype = 0x42;
+    u.payload = r.bytes(5);
+    Bytes foreign = buildFrame(1, 0x0FFF, wire::MT_DATA, 250, 0, {u});
+    uint16_t fseq = 0, vseq = 65530;
+    for (int msg = 0; msg < 6; ++msg)
+    {
+        Bytes data = content(static_cast<uint32_t>(900000 + j * 16 + msg), 40);
+        for (int sgi = 0; sgi < 4; ++sgi)
+        {
+            GMsg m;
+            m.ts = 0x0102030405060708ULL + static_cast<uint64_t>(msg);
+            m.idWord = 77;
+            m.ptype = 0x43;
+            m.flags = static_cast<uint8_t>(sgi == 0 ? wire::SEG_FIRST : (sgi == 3 ? wire::SEG_LAST : wire::SEG_MID));
+            m.payload.assign(data.begin() + sgi * 10, data.begin() + (sgi + 1) * 10);
+            Bytes f = buildFrame(1, 0x0ABC, wire::MT_DATA, 7, vseq++, {m});
+            auto got = dec.decode(f.data(), f.size());
+            ++c.evaluations;
+            if (sgi < 3 && !got.empty())
+                c.violation("C06:delivered-packet-matches-no-sent-message", "an unfinished victim message delivered a packet", "crowd history");
+            if (sgi == 3)
+            {
+                if (got.size() != 1 || !got[0])
+                    c.violation("C06:no-recovery-complete-message-not-delivered", "victim message " + std::to_string(msg) + " (4 segments, complete, in order, uninterrupted on its endpoint; " + std::to_string(crowd) +
+                                    " other endpoints hold unfinished messages, " + std::to_string(gap) + " foreign frames between its segments) was not delivered", "crowd history");
+                else if (snapPacket(*got[0]).payload.bytes != data)
+                    c.violation("C06:corrupted-payload-delivered", "victim message " + std::to_string(msg) + " delivered with other bytes than sent", "crowd history");
+                else
+                    c.count("recovered_segmented_deliveries");
+                break;
+            }
+            for (size_t k = 0; k < gap; ++k)
+            {
+                wire::set16(foreign.data() + 6, fseq++);
+                if (dec.decode(foreign.data(), foreign.size()).size() != 1)
+                    c.violation("C06:unsegmented-message-not-delivered", "a foreign unsegmented frame did not yield its packet", "crowd history");
+            }
+        }
+    }
+    c.count("crowd_histories");
+    c.sig(mix64(0xc40fd, static_cast<uint64_t>(j)));
+}
+
 constexpr long kPairCases = 16 * 61;
 constexpr long kBurstDet = 200;
 constexpr long kAllocDet = 16;
+constexpr long kCrowd = 16;
 inline long count(Ctx& c)
 {
-    return kPairCases + kBurstDet + kAllocDet + (c.thorough() ? 2400000 : 16000);
+    return kPairCases + kBurstDet + kAllocDet + kCrowd + (c.thorough() ? 2400000 : 16000);
 }
 inline void run(Ctx& c, long idx)
 {
@@ -670,6 +744,8 @@ inline void run(Ctx& c, long idx)
         return burstCase(c, idx - kPairCases, true);
     if (idx < kPairCases + kBurstDet + kAllocDet)
         return allocSweep(c, idx - kPairCases - kBurstDet);
+    if (idx < kPairCases + kBurstDet + kAllocDet + kCrowd)
+        return crowdCase(c, idx - kPairCases - kBurstDet - kAllocDet);
     if (idx % 16 == 5)
         return burstCase(c, idx, false);
     randomCase(c, idx);
